@@ -40,7 +40,7 @@ type PropConfig struct {
 	Trusted  []string    `json:"trusted"`
 	Assumes  []string    `json:"assumptions"`
 	StandIns []StandIn   `json:"standins"`
-	ReplayPkg map[string]string `json:"replay_pkg"` // func key prefix -> package dir
+	ReplayCases map[string]string `json:"replay_cases"` // func key -> comma separated replay case names
 	Explanation string   `json:"explanation"`
 	Extra    []string    `json:"extra_cmds"` // additional deciding commands (e.g. asmvc), run from /verif
 }
@@ -202,6 +202,9 @@ func cmdCheck(args []string) {
 		if pkg == "" {
 			return nil
 		}
+		if c, ok := pc.ReplayCases[fn]; ok {
+			cs = c
+		}
 		key := pkg + "|" + cs
 		if r, ok := replayCache[key]; ok {
 			return r
@@ -245,7 +248,7 @@ func cmdCheck(args []string) {
 				continue
 			}
 			wasProved := baseline[baseName(o.Name)]
-			fails := runReplay(o.Func, 2000)
+			fails := runReplay(o.Func, 400)
 			rec := map[string]interface{}{
 				"property": id, "obligation": o.Name, "position": o.Pos, "verdict": o.Res.Verdict.String(),
 				"solver": o.Res.Solver, "solver_detail": o.Res.Detail, "model": truncate(o.Res.Model, 20000),
@@ -270,7 +273,7 @@ func cmdCheck(args []string) {
 	for _, fr := range stale {
 		lines = append(lines, fmt.Sprintf("STALE-CONTRACT: %s (%s): %s", fr.rep.Key, fr.rep.Status, fr.rep.Reason))
 		level = "exploration"
-		fails := runReplay(fr.rep.Key, 2000)
+		fails := runReplay(fr.rep.Key, 400)
 		if len(fails) > 0 {
 			p := writeReplay(map[string]interface{}{"property": id, "function": fr.rep.Key, "stale_contract": fr.rep.Reason, "replay_failures": fails})
 			lines = append(lines, fmt.Sprintf("VIOLATION property=%s replay=%s function=%s input: %s", id, p, fr.rep.Key, truncate(fails[0], 300)))
